@@ -176,6 +176,26 @@ pub fn traversal_case(cx: &mut Ctx, n: u64, case: &Value) {
             eq("try_map_coords_in_place_failing", &format!("try_map_coords_in_place failing at call {k} of {calls}"), ok, format!("{r:?}"));
         }
     }
+    // the same traversal facts on integer and f32 coordinates (map_coords to another scalar type, then traverse)
+    {
+        let gi: Geometry<i32> = gg.map_coords(|c| Coord { x: c.x as i32, y: c.y as i32 });
+        let wi: Vec<Coord<i32>> = want_coords.iter().map(|c| Coord { x: c.x as i32, y: c.y as i32 }).collect();
+        let lossless = want_coords.iter().all(|c| c.x.fract() == 0.0 && c.y.fract() == 0.0 && c.x.abs() < 1e9 && c.y.abs() < 1e9);
+        if lossless {
+            let ok = gi.coords_iter().collect::<Vec<_>>() == wi && gi.coords_count() == wi.len()
+                && gi.exterior_coords_iter().count() == want_ext.len()
+                && gi.map_coords(|c| Coord { x: c.x as f64, y: c.y as f64 }) == gg;
+            eq("other_scalar_types", "Geometry<i32>: coords_iter / coords_count / exterior count / round trip through map_coords", ok, format!("{:?}", gi));
+            let bi = guard(|| gi.bounding_rect());
+            let wb: Vec<f64> = case["bbox"].as_array().unwrap().iter().map(|v| v.as_f64().unwrap()).collect();
+            let okb = match &bi { Ok(None) => wb.is_empty(), Ok(Some(r)) => wb.len() == 4 && r.min().x as f64 == wb[0] && r.min().y as f64 == wb[1] && r.max().x as f64 == wb[2] && r.max().y as f64 == wb[3], Err(_) => false };
+            eq("other_scalar_types", "Geometry<i32>::bounding_rect", okb, format!("{bi:?}"));
+            let gf: Geometry<f32> = gg.map_coords(|c| Coord { x: c.x as f32, y: c.y as f32 });
+            let okf = gf.coords_iter().map(|c| Coord { x: c.x as f64, y: c.y as f64 }).collect::<Vec<_>>() == want_coords
+                && match guard(|| gf.bounding_rect()) { Ok(None) => wb.is_empty(), Ok(Some(r)) => wb.len() == 4 && r.min().x as f64 == wb[0] && r.max().y as f64 == wb[3], Err(_) => false };
+            eq("other_scalar_types", "Geometry<f32>: coords_iter / bounding_rect", okf, format!("{:?}", gf));
+        }
+    }
     // bounding rect
     let bb = guard(|| gg.bounding_rect());
     let want_bb: Vec<f64> = case["bbox"].as_array().unwrap().iter().map(|v| v.as_f64().unwrap()).collect();
